@@ -112,7 +112,7 @@ reg(Check("C17", "model_checking",
           "The same search is repeated from a scripted non-initial state (leader a has declared the cut-off node b dead, the others "
           "have adopted the reduced ring, the network has healed) for 3 nodes (B = 2 / 3) and, thorough only, 4 nodes. "
           "Follower: one real node (real run loop, Cluster.Health, Cluster.Vote) against every sequence of {health check from a|c with term 1..3, "
-          "vote request of a|c for term 1..3} up to length 3 (quick, 1884 sequences) / 4 (thorough): term never decreases, one vote per term, stale health checks change nothing. "
+          "vote request of a|c for term 1..3} up to length 4 (quick, 22620 sequences) / 5 (thorough, 271452): term never decreases, one vote per term, stale health checks change nothing. "
           "Gate: all sequences up to length 3 (quick) / 4 (thorough) of {join, publish, get, leave, route} x {same ring, other ring} "
           "and X rehashing, through the real TopicMaster / Route endpoints. Non-trivial = distinct canonical states / sequences.",
           ["hash ties are judged for order-independence and totality only, not for which node wins",
